@@ -19,9 +19,15 @@ reg("C03", True, "translation_validation", "per-program bounded equivalence by g
 reg("C04", True, "translation_validation", "per-program bounded equivalence by generated search: derived start predicate vs StartPredicate::Arbitrary (hook)",
     "Each generated program is compared with the same bytecode with the prefilter removed on every short haystack and every start offset, plus an alignment-sweeping scanner generator.",
     "Trusted: hook verif_with_arbitrary_start_predicate (clones the compiled program and replaces only start_pred); fuel hook. Bounded haystack length.", "3 C04")
-reg("C05", False, "exploration", "", "", "", "3 C05")
-reg("C06", False, "exploration", "", "", "", "3 C06")
-reg("C07", False, "exploration", "", "", "", "3 C07")
+reg("C05", True, "exploration", "bounded-exhaustive enumeration of nested-quantifier patterns x all short haystacks + random nested patterns; deterministic step counter (fuel hook) as oracle",
+    "Complete enumeration of the nested-quantifier slice (depth 2 quick / 3 thorough) on all haystacks in {a,b}^<=4, both executors and pipelines: every search must finish within a fixed step budget, keep its backtrack store <= 4*steps, and stay within 200x of the other executor's step count. Random larger cases by mutual ratio.",
+    "Trusted: fuel hook (ticks per instruction / backtrack pop). Budgets calibrated >= 20x the worst case of the repaired tree. No wall clock.", "3 C05")
+reg("C06", True, "exploration", "property-based testing of range validity / panic freedom, same case stream on three builds (release under a crash supervisor, debug-assertions, prohibit-unsafe+index-positions)",
+    "Random search with multi-byte haystacks and hostile starts; any panic, process death, assertion failure in the checked builds or invalid range is a violation.",
+    "Silent out-of-bounds reads that neither crash nor trip an assertion are out of reach (ASan/Miri not in the quick tier).", "3 C06")
+reg("C07", True, "exploration", "fuzz-style generated inputs (raw code points, token soup, mutated valid patterns, size-parametric adversarial families) with a crash supervisor and a deterministic compile-tick budget",
+    "Random + structured search over compiler inputs; every compilation must return Ok/Err without panic, abort or exceeding A+B*n*log2(n+2) ticks; families run on a 2 MiB stack.",
+    "Trusted: compile-tick hook (parser input primitives, term loop, optimizer fixpoints, emitter loop). A loop outside those is only seen by the wall-clock watchdog (INCONCLUSIVE).", "3 C07")
 reg("C08", False, "exploration", "", "", "", "3 C08")
 reg("C09", True, "exploration", "property-based testing: iterator vs unfold of first-match, history invariants after every next()",
     "Random search over patterns biased to empty/adjacent/multi-byte matches; the iterator must equal the lastIndex unfold built from fresh first-match calls and satisfy the ordering/termination invariants; both executors, UTF-8 and ASCII.",
